@@ -140,11 +140,20 @@ class Check:
         return ok
 
     def coqchk(self, module):
+        # the compiled files are copied under the lock (12 MB) and re-checked from the private copy, so that the
+        # independent checker (20+ minutes for the developments over the reals) does not hold up other checks
+        vo = os.path.join(self.outdir, "vo")
         with build_lock():
-            rc, o, e, s = sh("timeout 1500 coqchk -o -silent -Q . OmplV OmplV.%s" % module, cwd=COQ, timeout=1600)
+            shutil.rmtree(vo, ignore_errors=True); os.makedirs(vo)
+            for f in os.listdir(COQ):
+                if f.endswith(".vo"): shutil.copy2(os.path.join(COQ, f), vo)
+        rc, o, e, s = sh("timeout 5400 coqchk -o -silent -Q . OmplV OmplV.%s" % module, cwd=vo, timeout=5500)
+        shutil.rmtree(vo, ignore_errors=True)
         self.step("prove:coqchk", "coqchk -o -silent -Q . OmplV OmplV." + module, s, rc == 0)
         self.cov["coqchk"] = {"rc": rc, "tail": (o + e)[-1500:]}
-        if rc != 0:
+        if rc == 124:
+            self.broken.append("coqchk did not finish re-checking OmplV.%s within 90 minutes" % module)
+        elif rc != 0:
             self.broken.append("coqchk rejects OmplV." + module)
         return rc == 0
 
